@@ -28,7 +28,7 @@ META = dict(
   stubs=["functions are concrete callables wrapped in an evaluation counter that raises at evaluation k",
          "action_tabulate's Configuration is replaced by one returning the prepared tabulation object (the file handling is the real code)"],
   outside=["failures that are not exceptions raised by a function evaluation (disk full, signals)", "grids larger than the stated sizes (the loops' bodies do not depend on the trip count)"],
-  assumptions=["a failing evaluation shows as an exception leaving the callable"],
+  assumptions=["a failing evaluation shows as an exception leaving the callable (classes tried: a plain Exception subclass, StopIteration, KeyError, ZeroDivisionError)"],
   explanation="the failing ordinal k is one symbolic integer; every evaluation compares its index with k, so the explorer splits on the solver-feasible "
               "classes of k (N+1 of them, N discovered); on each failing path the sink must have received nothing and the exception must propagate; the "
               "union of the path conditions is shown to cover every integer k (completeness VC)",
@@ -89,7 +89,7 @@ def make_tabulation(target, nr, nrho, nelem, mk):
   return cls(pairpots, eampots, cutoff, nr, cutoff_rho, nrho)
 
 
-def run_once(target, nr, nrho, nelem, route, k, candidates=None):
+def run_once(target, nr, nrho, nelem, route, k, candidates=None, exc_cls=None):
   """One execution with failing ordinal k (an int, None or a symbolic SInt).
   Returns dict(n=evaluations made, failed=(name, index) or None, exc=..., out=list of non-empty writes / file bytes)."""
   counter = [0]
@@ -103,7 +103,7 @@ def run_once(target, nr, nrho, nelem, route, k, candidates=None):
       counter[0] += 1
       if k is not None and (candidates is None or i in candidates) and (k == i):
         failed[0] = (name, i)
-        raise Boom("evaluation %d (%s)" % (i, name))
+        raise (exc_cls or Boom)("evaluation %d (%s)" % (i, name))
       return g(x)
     return f
   tab = make_tabulation(target, nr, nrho, nelem, mk)
@@ -112,7 +112,7 @@ def run_once(target, nr, nrho, nelem, route, k, candidates=None):
     sink = BSink()
     try:
       tab.write(sink)
-    except Boom as e:
+    except (exc_cls or Boom) as e:
       exc = e
     out = sink.nonempty()
     size = sum(len(w) for w in out)
@@ -130,18 +130,39 @@ def run_once(target, nr, nrho, nelem, route, k, candidates=None):
     try:
       try:
         _actions.action_tabulate(None, path)
-      except Boom as e:
+      except (exc_cls or Boom) as e:
         exc = e
       size = os.path.getsize(path) if os.path.exists(path) else 0
       nwrites = 1 if size else 0
     finally:
       _actions.Configuration = saved
       shutil.rmtree(d, ignore_errors=True)
-  return dict(n=counter[0], failed=failed[0], exc=exc, size=size, nwrites=nwrites)
+  retry = None
+  if exc is not None and route == "write":
+    # the same object written again after the failure (the failing ordinal has passed): whole table or an error, never a partial one
+    try:
+      retry = ("ok", _dump(tab))
+    except Exception as e:  # noqa
+      retry = ("raised", type(e).__name__)
+  return dict(n=counter[0], failed=failed[0], exc=exc, size=size, nwrites=nwrites, retry=retry, dump=_dump(tab) if (exc is None and route == "write" and k is None) else None)
 
 
-def fault_case(target, nr, nrho, nelem, route, large=False):
-  res = new_result("fault %s nr=%d nrho=%d elements=%d route=%s%s" % (target, nr, nrho, nelem, route, " (large grid, k in a candidate set)" if large else ""))
+def _dump(tab):
+  if tab.target.startswith("excel"):
+    wb = tab.workbook
+    return repr([(ws.title, [[c.value for c in row] for row in ws.iter_rows()]) for ws in wb.worksheets])
+  s = io.StringIO()
+  tab.write(s)
+  return s.getvalue()
+
+
+EXC = dict(Boom=None, StopIteration=StopIteration, KeyError=KeyError, ArithmeticError=ZeroDivisionError)
+
+
+def fault_case(target, nr, nrho, nelem, route, large=False, exc="Boom"):
+  exc_cls = EXC[exc]
+  res = new_result("fault %s nr=%d nrho=%d elements=%d route=%s%s%s" % (target, nr, nrho, nelem, route, " (large grid, k in a candidate set)" if large else "",
+                                                                   "" if exc == "Boom" else " failing with %s" % exc))
   base = run_once(target, nr, nrho, nelem, route, None)
   if base["exc"] is not None or base["size"] == 0:
     res["harness_errors"].append("reference run without fault produced no output")
@@ -159,7 +180,7 @@ def fault_case(target, nr, nrho, nelem, route, large=False):
     k = symint("k")
     if cand is not None:
       core.assume(z3.Or([z3.Int("k") == c for c in cand] + [z3.Int("k") == -1]))
-    return run_once(target, nr, nrho, nelem, route, k, cand)
+    return run_once(target, nr, nrho, nelem, route, k, cand, exc_cls)
 
   ex = core.Explorer(max_paths=5000, max_seconds=240)
   pcs = []
@@ -175,7 +196,10 @@ def fault_case(target, nr, nrho, nelem, route, large=False):
     if v["failed"] is None:
       complete_paths += 1
       # no failure on this path: the whole table must be there
-      if v["size"] != base["size"] or v["exc"] is not None:
+      differs = v["size"] != base["size"]
+      if target.startswith("excel"):
+        differs = not v["size"] or abs(v["size"] - base["size"]) > 64     # .xlsx containers vary by a few bytes with the clock
+      if differs or v["exc"] is not None:
         key = "complete-%s" % target
         if key not in seen:
           seen[key] = 1
@@ -190,8 +214,12 @@ def fault_case(target, nr, nrho, nelem, route, large=False):
     elif v["size"] > 0:
       problem = "evaluation %d of %d (%s function %s) failed and %d bytes (%d write calls) of a partial table were left behind (a complete table has %d bytes)" % (
         idx, N, cls, name, v["size"], v["nwrites"], base["size"])
+    if not problem and v.get("retry") is not None and v["retry"][0] == "ok" and base.get("dump") is not None and v["retry"][1] != base["dump"]:
+      problem = "after evaluation %d (%s function %s) failed, writing the same tabulation object again emits a table that differs from the complete one (%d vs %d characters)" % (
+        idx, cls, name, len(v["retry"][1]), len(base["dump"]))
+      cls = cls + "-retry"
     if problem:
-      key = "partial-%s-%s-%s" % (target, route, cls)
+      key = "partial-%s-%s-%s%s" % (target, route, cls, "" if exc == "Boom" else "-" + exc)
       if key in seen:
         seen[key]["count"] += 1
         continue
@@ -201,9 +229,9 @@ def fault_case(target, nr, nrho, nelem, route, large=False):
       kk = idx
       if s.check() == z3.sat:
         kk = s.model().eval(z3.Int("k"), model_completion=True).as_long()
-      r2 = run_once(target, nr, nrho, nelem, route, kk)  # concrete k: no candidate filter needed
+      r2 = run_once(target, nr, nrho, nelem, route, kk, None, exc_cls)  # concrete k: no candidate filter needed
       res["replays"] += 1
-      confirmed = (r2["exc"] is None) or r2["size"] > 0
+      confirmed = (r2["exc"] is None) or r2["size"] > 0 or (r2.get("retry") is not None and r2["retry"][0] == "ok" and r2["retry"][1] != base.get("dump"))
       entry = dict(key=key, desc=problem, count=1, witness=dict(k=kk, target=target, nr=nr, nrho=nrho, elements=nelem, route=route),
                    record=dict(kind="fault", replay_size=r2["size"], replay_exception=repr(r2["exc"])))
       if confirmed:
@@ -340,6 +368,9 @@ def cases(tier, seed=0):
     for (nr, nrho, ne) in grids:
       for route in ("write", "action_tabulate"):
         cs.append(Case("fault %s %d %d %d %s" % (t, nr, nrho, ne, route), fault_case, target=t, nr=nr, nrho=nrho, nelem=ne, route=route))
+    for kind in ("StopIteration", "KeyError", "ArithmeticError"):
+      # the kind of exception must not matter (StopIteration in particular is swallowed by iterator protocols)
+      cs.append(Case("fault %s %s" % (t, kind), fault_case, target=t, nr=8 if t == "DLPOLY" else 4, nrho=3, nelem=2, route="write", exc=kind))
     if not t.startswith("excel"):
       big = 24000 if t in PAIR_TARGETS else 12000
       cs.append(Case("fault %s large" % t, fault_case, target=t, nr=big, nrho=big, nelem=2, route="write", large=True))
